@@ -186,7 +186,8 @@ Fixpoint sort_keys {A} (lt : bytes -> bytes -> bool) (l : list (bytes * A)) : li
    kind 5: struct{V string}   <-> wire struct{W string}
    kind 6: struct{A,B string} <-> string  A ++ ":" ++ B  (map keys; A has no ':')
    kind 7: struct{K string; N int64} <-> wire struct{K string; N int64} (both wire fields omitempty)
-   kind 8: struct{B []byte}   <-> []byte   (the functions pass the slice through) *)
+   kind 8: struct{B []byte}   <-> []byte   (the functions pass the slice through)
+   kind 9: struct{V interface{}} <-> interface{}  (the serial form is an untyped value) *)
 
 Fixpoint split_at (c : Z) (s : bytes) (acc : bytes) : option (bytes * bytes) :=
   match s with
@@ -203,6 +204,7 @@ Definition tr_fwd (kind : Z) (v : gval) : option gval :=
   else if kind =? 6 then match v with VStruct [GVStr a; GVStr b] => Some (GVStr (a ++ 58 :: b)) | _ => None end
   else if kind =? 7 then match v with VStruct [GVStr k; VNum n] => Some (VStruct [GVStr k; VNum n]) | _ => None end
   else if kind =? 8 then match v with VStruct [VBytes o] => Some (VBytes o) | _ => None end
+  else if kind =? 9 then match v with VStruct [VAny o] => Some (VAny o) | _ => None end
   else None.
 
 Definition tr_bwd (kind : Z) (v : gval) : option gval :=
@@ -216,4 +218,5 @@ Definition tr_bwd (kind : Z) (v : gval) : option gval :=
     match v with GVStr s => match split_at 58 s [] with Some (a, b) => Some (VStruct [GVStr a; GVStr b]) | None => None end | _ => None end
   else if kind =? 7 then match v with VStruct [GVStr k; VNum n] => Some (VStruct [GVStr k; VNum n]) | _ => None end
   else if kind =? 8 then match v with VBytes o => Some (VStruct [VBytes o]) | _ => None end
+  else if kind =? 9 then match v with VAny o => Some (VStruct [VAny o]) | _ => None end
   else None.
